@@ -92,8 +92,11 @@ func executeCompaction(db *DB) (compactionMetadata *proto.CompactionMetadata, er
 		return nil, err
 	}
 
+	writerClosed := false
 	defer func() {
-		err = errors.Join(err, writer.Close())
+		if !writerClosed {
+			err = errors.Join(err, writer.Close())
+		}
 	}()
 
 	var readers []sstables.SSTableReaderI
@@ -128,6 +131,14 @@ func executeCompaction(db *DB) (compactionMetadata *proto.CompactionMetadata, er
 		reduceFunc = scanReduceLatestWinsKeepTombstones
 	}
 	err = sstables.NewSSTableMerger(db.cmp).MergeCompact(iterators, writer, reduceFunc)
+	if err != nil {
+		return nil, err
+	}
+
+	// the table must be complete on disk (buffers flushed, bloom filter and metadata written) before the success
+	// flag below may exist: recovery replaces the inputs by this folder as soon as it sees the flag
+	writerClosed = true
+	err = writer.Close()
 	if err != nil {
 		return nil, err
 	}
